@@ -533,3 +533,28 @@ Proof.
   - now apply shape_delmd.
   - now apply shape_wmd.
 Qed.
+
+(* ---------------------------------------------------------------- full results of the three operations of the reuse probe *)
+Lemma step_delete_eq : forall c s x ord e d, DI c s -> mem s x = Some e ->
+  vget (area_of e) (blobs (disk s) x) = Some d -> legal_order ord (Some d) = true ->
+  step c s (Delete x ord) =
+  (mkst (upd (mem s) x None) (msize s - e_size e) (exec (rm_calls (area_of e) x ord (Some d)) (disk s)), OOk,
+   rm_calls (area_of e) x ord (Some d)).
+Proof. intros c s x ord e d D M V L. cbn [step]. rewrite M, V, L. reflexivity. Qed.
+
+Lemma step_create_eq : forall c s x sz, DI c s -> mem s x = None -> msize s + sz <= c_cap c ->
+  exists cs, step c s (Create x sz) =
+  (mkst (set_e (mem s) x (mkment sz false false)) (msize s + sz) (exec cs (disk s)), OOk, cs).
+Proof.
+  intros c s x sz D M F. pose proof (di_keys c s D x) as K. rewrite M in K. cbn in K.
+  cbn [step]. rewrite M, K. cbn [snd]. apply N.leb_le in F. rewrite F. cbn. eauto.
+Qed.
+
+Lemma step_mc_eq : forall c s x e, DI c s -> mem s x = Some e -> e_complete e = false ->
+  exists cs, step c s (MarkComplete x) =
+  (mkst (set_e (mem s) x (mkment (e_size e) true (e_banned e))) (msize s) (exec cs (disk s)), OOk, cs).
+Proof.
+  intros c s x e D M C. pose proof (di_keys c s D x) as K. rewrite M in K. destruct K as [d [Hv OK]].
+  unfold area_of in Hv. rewrite C in Hv. cbn in Hv.
+  cbn [step]. rewrite M, C, Hv. cbn. eauto.
+Qed.
